@@ -222,7 +222,7 @@ class Interp:
                     isinstance(t_, ast.Name) and t_.id == nm for t_ in (n_.targets if isinstance(n_, ast.Assign) else [n_.target]))]
                 iters = [n_ for n_ in ast.walk(fn) if isinstance(n_, ast.For) and isinstance(n_.iter, ast.Name) and n_.iter.id == nm]
                 if muts and all(m_.func.attr == "append" and len(m_.args) == 1 and not m_.keywords for m_ in muts) and len(inits) == 1 and inits[0].value is not None and (
-                        (isinstance(inits[0].value, ast.List) and not inits[0].value.elts) or (isinstance(inits[0].value, ast.Call) and ast.unparse(inits[0].value) == "list()")) \
+                        (isinstance(inits[0].value, ast.List) and not inits[0].value.elts) or (isinstance(inits[0].value, ast.Call) and ast.unparse(inits[0].value) in ("list()", "bytearray()"))) \
                         and len(uses.get(nm, [])) == len(muts) + len(inits) + len(iters) + len(_pure_reads(fn, nm)) + len(
                             [r_ for r_ in ast.walk(fn) if isinstance(r_, ast.Return) and isinstance(r_.value, ast.Name) and r_.value.id == nm]):
                     self.append_only.add(nm)
@@ -393,6 +393,8 @@ class Interp:
                     and isinstance(st.value.func.value, ast.Name) and st.value.func.value.id in self.append_only and v[0] == "call" and len(v[2]) == 1:
                 old = self.lookup(st.value.func.value.id)
                 items = old[1] if old is not None and old[0] == "list" else (tuple(C(x) for x in old[1]) if old is not None and old[0] == "c" and isinstance(old[1], tuple) else None)
+                if items is None and old is not None and old[0] == "call" and old[1] in (N("bytearray"), N("list")) and not old[2] and not old[3]:
+                    items = ()
                 if items is not None:
                     self.bind(st.value.func.value.id, ("list", tuple(items) + (v[2][0],)))
             if v[0] == "yield":
@@ -1631,7 +1633,7 @@ def _pure_reads(fn: ast.AST, nm: str) -> List[ast.AST]:
     """reads of the local `nm` that cannot change it: argument of bool / len / tuple / sorted ..., operand of `not`, a test"""
     out: List[ast.AST] = []
     for n in ast.walk(fn):
-        if isinstance(n, ast.Call) and isinstance(n.func, ast.Name) and n.func.id in ("bool", "len", "tuple", "sorted", "reversed", "enumerate", "any", "all", "sum", "min", "max") \
+        if isinstance(n, ast.Call) and isinstance(n.func, ast.Name) and n.func.id in ("bool", "len", "tuple", "sorted", "reversed", "enumerate", "any", "all", "sum", "min", "max", "bytes") \
                 and not n.keywords:
             out += [a for a in n.args if isinstance(a, ast.Name) and a.id == nm]
         elif isinstance(n, ast.Call) and isinstance(n.func, ast.Attribute) and n.func.attr == "join" and isinstance(n.func.value, ast.Constant) and not n.keywords:
